@@ -77,8 +77,9 @@ def pickUpTrip (w : World) (v : VehicleId) (rid : RequestId) : Outcome World :=
   | some veh, some req => do
     let veh' := { veh with balance := veh.balance + req.value }
     let s1 ← w.sim.modifyVehicle env veh'
-    -- report_pickup_request: time-of-day difference of (sim_time - dt) and departure_time, wrapped into one day
-    let ev := Event.pickup v rid req.value (((s1.time - s1.dt) - req.departure) % 86400)
+    -- report_pickup_request: time-of-day difference of sim_time (the start of the running step)
+    -- and departure_time, wrapped into one day
+    let ev := Event.pickup v rid req.value ((s1.time - req.departure) % 86400)
     let s2 ← s1.removeRequest env rid
     pure { sim := s2, log := w.log ++ [ev] }
 
